@@ -41,14 +41,21 @@ def fingerprint_changes():
     changed += [n + ' (removed)' for n in MIRRORED if n not in cur and n in exp]
     return changed
 
+FLAGS = {}   # scenario -> flags printed by `fdaudit list` after the name (netns: run in a private network namespace)
+
 def scenario_names(binary):
     rc, out = common.sh([binary, 'list'])
-    return [l for l in out.split('\n') if l.strip()]
+    names = []
+    for l in out.split('\n'):
+        w = l.split()
+        if w:
+            names.append(w[0]); FLAGS[w[0]] = tuple(w[1:])
+    return names
 
 def run_batch(binary, jobs, wd):
     """jobs: [(scenario, seed)] -> [(scenario record, verdict dict)]"""
     with ThreadPoolExecutor(16) as ex:
-        scs = list(ex.map(lambda j: fdrun.run_scenario(binary, j[0], j[1], wd), jobs))
+        scs = list(ex.map(lambda j: fdrun.run_scenario(binary, j[0], j[1], wd, flags=FLAGS.get(j[0], ())), jobs))
     blocks = [fdrun.op_lines(sc) for sc in scs]
     # judge in parallel chunks (the model search is single threaded)
     chunks = [list(range(i, len(scs), 8)) for i in range(8)]
@@ -292,7 +299,8 @@ def replay(rep, path):
             rep.violation('harness does not build', ['# go build failed'], no_input=True)
             return rep.finish(LEVEL)
         for k in range(3):
-            sc = fdrun.run_scenario(binary, w[1], int(w[3]) + k * 7, os.path.join(common.WORK, 'replay'))
+            scenario_names(binary)
+            sc = fdrun.run_scenario(binary, w[1], int(w[3]) + k * 7, os.path.join(common.WORK, 'replay'), flags=FLAGS.get(w[1], ()))
             b = fdrun.op_lines(sc)
             v = fdrun.judge([b])[0]
             rep.cov['evaluations'] += 1
